@@ -306,32 +306,21 @@ func c03PerSiteBindings(r *an.Run) {
 	if f == nil {
 		return
 	}
-	ils := findIndexLoopsGroup(f, isLenOfPathIn(f, "fd.Matches"))
-	if !r.Check(len(ils) == 1, short(f)+"|loop", f.Pos(), "one loop over fd.Matches") {
+	site := findSlotSite(r)
+	if !r.Check(site != nil, short(f)+"|loop", f.Pos(), "one loop over fd.Matches that reads fd.Matches[i]") {
 		return
 	}
-	il := ils[0]
-	// the loop element
-	var elem ssa.Value
-	for b := range il.Loop.Blocks {
-		for _, in := range b.Instrs {
-			if u, ok := in.(*ssa.UnOp); ok && elemOfIn(f, u, "fd.Matches", il.Index) {
-				elem = u
-			}
-		}
-	}
-	if !r.Check(elem != nil, short(f)+"|element", il.If.Pos(), "the loop reads fd.Matches[i]") {
-		return
-	}
+	il := site.il
 	fieldOfElem := func(v ssa.Value, name string) bool {
 		u, ok := v.(*ssa.UnOp)
 		if !ok {
 			return false
 		}
 		fa, ok := u.X.(*ssa.FieldAddr)
-		return ok && fa.X == elem && fieldNameOf(fa) == name
+		return ok && site.isMatch(fa.X) && fieldNameOf(fa) == name
 	}
-	calls := callsInLoop(il.Loop, replReplace)
+	elemIs := site.isMatch
+	calls := site.calls(replReplace)
 	if !r.Check(len(calls) == 1, short(f)+"|replace-call", il.If.Pos(), "one node replacement per match") {
 		return
 	}
@@ -339,7 +328,7 @@ func c03PerSiteBindings(r *an.Run) {
 	a := an.CallArgs(call)
 	r.Check(fieldOfElem(a[1], "data"), short(f)+"|site-data", call.Pos(), "the node replacer is given the bindings recorded for this very match (m.data)")
 	// slot: Set destination derives from elem.parent/name/index
-	for _, s := range callsInLoop(il.Loop, rvSet) {
+	for _, s := range site.calls(rvSet) {
 		dst := an.CallArgs(s)[0]
 		src := an.CallArgs(s)[1]
 		sl := an.BackSlice(dst, an.SliceOpts{ThroughCalls: true})
@@ -354,7 +343,7 @@ func c03PerSiteBindings(r *an.Run) {
 			if c, ok := v.(*ssa.Call); ok {
 				if h := an.StaticCallee(c); h != nil && an.InModule(h) && h.Blocks != nil {
 					for i, a := range c.Call.Args {
-						if a != elem || i >= len(h.Params) {
+						if !elemIs(a) || i >= len(h.Params) {
 							continue
 						}
 						for _, hb := range h.Blocks {
@@ -389,10 +378,13 @@ func c03SlotAlwaysAssignedWhenAdmissible(r *an.Run) {
 	if f == nil {
 		return
 	}
-	if _, holder, _ := matchLoop(r); holder != nil {
-		f = holder // the node stage may live in a helper of Replace
-	}
 	sets := an.CallsTo(f, rvSet)
+	var siteLoop *an.Loop
+	if site := findSlotSite(r); site != nil {
+		f = site.fn // the node stage / the per-match step may live in a helper of Replace
+		sets = site.calls(rvSet)
+		siteLoop = site.loopInFn()
+	}
 	n := 0
 	for _, b := range f.Blocks {
 		iff, ok := b.Instrs[len(b.Instrs)-1].(*ssa.If)
@@ -409,7 +401,11 @@ func c03SlotAlwaysAssignedWhenAdmissible(r *an.Run) {
 		start := b.Succs[br.EdgeWhen(true)]
 		good := false
 		for _, s := range sets {
-			if mustPassOrLoop(start, s.Block(), an.LoopOf(f, b)) {
+			lp := an.LoopOf(f, b)
+			if lp == nil {
+				lp = siteLoop
+			}
+			if mustPassOrLoop(start, s.Block(), lp) {
 				good = true
 			}
 		}
@@ -420,7 +416,10 @@ func c03SlotAlwaysAssignedWhenAdmissible(r *an.Run) {
 	for _, s := range sets {
 		loop := an.LoopOf(f, s.Block())
 		for _, cd := range r.P.AllCtrlDeps(s.Block()) {
-			if loop == nil || !loop.Blocks[cd.Block] {
+			if loop != nil && !loop.Blocks[cd.Block] {
+				continue
+			}
+			if loop == nil && siteLoop != nil {
 				continue
 			}
 			iff := cd.Block.Instrs[len(cd.Block.Instrs)-1].(*ssa.If)
